@@ -306,6 +306,9 @@ class Transmitter(AbstractTransmitter):
                 if origin <= t <= self._current_time
             ]
             events_nonlatent = list(itertools.chain(*events_nonlatent))
+            # Past events are replayed in chronological order.
+            events_nonlatent = sorted(events_latent + events_nonlatent)
+            events_latent = list()
         else:
             events_latent = self._partition_latent[self._current_time]
             events_nonlatent = self._partition_nonlatent[self._current_time]
